@@ -534,8 +534,13 @@ class Hub:
     async def api(self, func, *args, method='GET', path='/', query=None):
         """Calls an API function; returns ('ok', result) | ('err', status, code) | ('accepted',)."""
         try:
-            r = await func(self.handler(method, path, query), *args)
+            # a consumer's request that the hub never answers (e.g. a value write whose port is removed while the write
+            # is in flight: the port's write task is cancelled and the request's future is never resolved) must not
+            # hang the scenario: give up after 300 virtual seconds, as an HTTP client would
+            r = await asyncio.wait_for(func(self.handler(method, path, query), *args), 300)
             return ('ok', r)
+        except asyncio.TimeoutError:
+            return ('err', 0, 'no-answer')
         except self.core_api.APIAccepted:
             return ('accepted',)
         except self.core_api.APIError as e:
